@@ -276,6 +276,32 @@ def check(ctx, rep):
                     rep.ok("R-EQ", key, where("eq"), "Q2: eq and cmp apply the same accessors to the fields (%s)" % (sorted(x.split('::')[-1] for x in oe) or "none"))
             elif "eq" in hand and ms.get("cmp", (None, False))[0] is None and "cmp" in ms:
                 pass
+        # Q1c what hash feeds is a function of what eq compares: beyond the fields' own Hash impls it may apply the accessors eq applies,
+        # and - on a timestamp, whose equality is equality of instants - the accessors that are functions of the instant alone. A
+        # crate accessor or a zone / local-time accessor that eq never consults makes equal values hash differently
+        if "hash" in hand and ("eq" in hand or "eq" in ms):
+            INSTANT = ("timestamp", "timestamp_millis", "timestamp_micros", "timestamp_nanos", "timestamp_nanos_opt", "timestamp_subsec_millis",
+                       "timestamp_subsec_micros", "timestamp_subsec_nanos", "naive_utc", "to_utc")
+            eq_obs = set()
+            if "eq" in hand:
+                eq_obs = {nm for k, nm, _t in ops["eq"] if k == "call"}
+            extra = []
+            hb0 = hand["hash"]
+            for b2 in [hb0] + [prog.bodies[c] for c in prog.closures_of.get(hb0.id, [])]:
+                for _bi2, t in b2.calls():
+                    nm = strip_generics(mir.callee_name(t) or "")
+                    last = nm.split("::")[-1]
+                    if re.search(r" as std::(cmp::(PartialEq|Eq|PartialOrd|Ord)|hash::Hash|ops::Deref|convert::AsRef|borrow::Borrow|clone::Clone)>::", nm) or nm in eq_obs:
+                        continue
+                    if nm.startswith(("haystack::", "<haystack::")) and t["args"]:
+                        extra.append(nm)
+                    elif "chrono" in nm and last not in INSTANT and t["args"]:
+                        extra.append(nm)
+            key = "%s:Q1c:hash-observers" % short
+            if extra:
+                rep.bad("R-EQ", "R-EQ:" + key, where("hash"), "Q1: %s::hash feeds %s, which eq never consults: two values that are equal can hash differently" % (short, sorted({x.split("::")[-1] for x in extra})))
+            else:
+                rep.ok("R-EQ", key, where("hash"), "Q1: hash applies no accessor that eq does not apply (instant accessors of a timestamp aside)")
         # Q2c hand-written eq next to a hand-written / derived cmp on a single-field wrapper: eq must be plain field equality
         if "eq" in hand and "cmp" in ms:
             extra = [nm for k, nm, txt in ops["eq"] if k == "call" and nm.split("::")[-1] not in ("eq", "ne", "deref", "as_ref", "to_bits", "borrow", "clone")]
